@@ -6,9 +6,10 @@
 //!   unix <hexpath>                                 image / addr_len / error of SocketAddressUnix::try_from_unix
 //!   csend <variant> <fd,fd,…|->                    control buffer built by create_send / update_control
 //!   cmsgiter <guard|tail> <controllen> <heximage>  the real ControlMessageIterator over a crafted receive buffer
+//!   cmsgraw <controllen> <heximage>                the real ControlMessageIterator over ARBITRARY bytes ending at a PROT_NONE page
 //!   kfill <len> <n>                                real sendmsg/recvmsg of n descriptors into a len-byte control buffer
 //! Observations of kernel behaviour (judged by checks/c16.py, no model line):
-//!   stream, timedaccept, timedread, tryidle, blockaccept, blockread, connrefused
+//!   stream, timedaccept, timedread, timedfrom, tryidle, blockaccept, blockread, connrefused
 #![allow(dead_code, unused_imports, clippy::all)]
 use std::cell::RefCell;
 use std::io::{BufRead, Write};
@@ -37,6 +38,7 @@ mod sys {
         pub fn close(fd: i32) -> i32;
         pub fn alarm(s: u32) -> u32;
         pub fn socketpair(d: i32, t: i32, p: i32, sv: *mut i32) -> i32;
+        pub fn fcntl(fd: i32, cmd: i32, ...) -> i32;
     }
 }
 
@@ -635,6 +637,50 @@ fn cmsg_iter(place: &str, controllen: usize, image: &[u8]) -> String {
     }
 }
 
+/// the real ControlMessageIterator over ARBITRARY buffer contents: the memory is exactly `image` (a multiple of 8 bytes)
+/// with its end against a PROT_NONE page; the control buffer handed to `create_recv` is its first `controllen` bytes.
+/// Every slice the iterator yields is read completely, the way a receiver would; `oob` = a yielded slice does not lie
+/// inside `[msg_control, msg_control + msg_controllen)` (judged from the slice's own pointer and length).
+fn cmsg_raw(controllen: usize, image: &[u8]) -> String {
+    unsafe {
+        let start = guarded(image.len());
+        core::ptr::copy_nonoverlapping(image.as_ptr(), start, image.len());
+        let mut space = [0u8; 8];
+        let io = &mut [IoSliceMut::new(&mut space)];
+        let ctrl = core::slice::from_raw_parts_mut(start, controllen);
+        let hdr = MsgHdrBorrow::create_recv(io, Some(ctrl));
+        let mut out = String::from("ok");
+        let mut oob = false;
+        let mut k = 0;
+        for m in hdr.control_messages() {
+            match m {
+                ControlMessageSend::ScmRights(fds) => {
+                    let n = fds.len();
+                    let p = fds.as_ptr() as *const i32;
+                    let off = (p as usize).wrapping_sub(start as usize);
+                    if (p as usize) < start as usize || off.saturating_add(n.saturating_mul(4)) > controllen {
+                        oob = true;
+                    }
+                    out.push_str(&format!(" {}:", n));
+                    for i in 0..n {
+                        let x = core::ptr::read_volatile(p.add(i));
+                        out.push_str(&format!("{}{}", if i > 0 { "," } else { "" }, x));
+                    }
+                }
+            }
+            k += 1;
+            if k > 100000 {
+                return "endless".into();
+            }
+        }
+        if oob {
+            format!("oob {}", out)
+        } else {
+            out
+        }
+    }
+}
+
 fn ident(fd: i32) -> (u64, u64) {
     let f = unsafe { std::fs::File::from_raw_fd(fd) };
     let m = f.metadata().map(|m| (m.dev(), m.ino())).unwrap_or((0, 0));
@@ -1007,6 +1053,170 @@ fn timed_read(ms: u64) -> String {
     })
 }
 
+/// timedfrom <unix|tcp> <ctor> <ms>: a stream obtained from the named constructor, the peer connected, open and SILENT.
+/// tcp: `read_with_timeout(ms)` bracketed by a monotonic clock; unix (no public time-limited read): the O_NONBLOCK flag the
+/// poll-based time limits rest on, and a plain read(2) on the descriptor, which must come back at once with EAGAIN.
+fn timed_from(fam: &str, ctor: &str, ms: u64) -> String {
+    let big = Duration::from_secs(5);
+    let retry_until = Instant::now() + Duration::from_secs(3);
+    let (stream, _peer, path): (AnyS, AnyS, Option<std::path::PathBuf>) = match fam {
+        "unix" => {
+            let (p, b) = sock_path();
+            let us: &UnixStr = match UnixStr::try_from_bytes(&b) {
+                Ok(u) => u,
+                Err(_) => return "setup-failed".into(),
+            };
+            let mut l = match UnixListener::bind(us) {
+                Ok(l) => l,
+                Err(_) => return "listen-failed".into(),
+            };
+            match ctor {
+                "accept" | "accept_with_timeout" | "try_accept" => {
+                    let peer = match UnixStream::connect(us) {
+                        Ok(s) => s,
+                        Err(e) => return format!("peer-connect-failed {}", show_err(&e)),
+                    };
+                    let s = match ctor {
+                        "accept" => l.accept(),
+                        "accept_with_timeout" => l.accept_with_timeout(big),
+                        _ => loop {
+                            match l.try_accept() {
+                                Ok(Some(s)) => break Ok(s),
+                                Ok(None) if Instant::now() < retry_until => std::thread::sleep(Duration::from_millis(1)),
+                                Ok(None) => return "try-accept-never-ready".into(),
+                                Err(e) => break Err(e),
+                            }
+                        },
+                    };
+                    match s {
+                        Ok(s) => (AnyS::U(s), AnyS::U(peer), Some(p)),
+                        Err(e) => return format!("ctor-failed {}", show_err(&e)),
+                    }
+                }
+                "connect" | "try_connect" => {
+                    let s = match ctor {
+                        "connect" => UnixStream::connect(us),
+                        _ => match UnixStream::try_connect(us) {
+                            Ok(Some(s)) => Ok(s),
+                            Ok(None) => return "try-connect-would-block".into(),
+                            Err(e) => Err(e),
+                        },
+                    };
+                    let s = match s {
+                        Ok(s) => s,
+                        Err(e) => return format!("ctor-failed {}", show_err(&e)),
+                    };
+                    match l.accept() {
+                        Ok(peer) => (AnyS::U(s), AnyS::U(peer), Some(p)),
+                        Err(e) => return format!("peer-accept-failed {}", show_err(&e)),
+                    }
+                }
+                _ => return "bad-op".into(),
+            }
+        }
+        "tcp" => {
+            let mut l = match TcpListener::bind(&SocketAddress::new(Ip::V4([127, 0, 0, 1]), 0)) {
+                Ok(l) => l,
+                Err(_) => return "listen-failed".into(),
+            };
+            let a = match l.local_addr() {
+                Ok(a) => a,
+                Err(_) => return "listen-failed".into(),
+            };
+            match ctor {
+                "accept" | "accept_with_timeout" | "try_accept" => {
+                    let peer = match TcpStream::connect(&a) {
+                        Ok(s) => s,
+                        Err(e) => return format!("peer-connect-failed {}", show_err(&e)),
+                    };
+                    let s = match ctor {
+                        "accept" => l.accept(),
+                        "accept_with_timeout" => l.accept_with_timeout(big),
+                        _ => loop {
+                            match l.try_accept() {
+                                Ok(Some(s)) => break Ok(s),
+                                Ok(None) if Instant::now() < retry_until => std::thread::sleep(Duration::from_millis(1)),
+                                Ok(None) => return "try-accept-never-ready".into(),
+                                Err(e) => break Err(e),
+                            }
+                        },
+                    };
+                    match s {
+                        Ok(s) => (AnyS::T(s), AnyS::T(peer), None),
+                        Err(e) => return format!("ctor-failed {}", show_err(&e)),
+                    }
+                }
+                "connect" | "connect_with_timeout" | "try_connect" | "connect_blocking" => {
+                    let s = match ctor {
+                        "connect" => TcpStream::connect(&a),
+                        "connect_with_timeout" => TcpStream::connect_with_timeout(&a, big),
+                        "connect_blocking" => match TcpStream::try_connect(&a) {
+                            Ok(TcpTryConnect::Connected(s)) => Ok(s),
+                            Ok(TcpTryConnect::InProgress(p)) => p.connect_blocking(),
+                            Err(e) => Err(e),
+                        },
+                        _ => match TcpStream::try_connect(&a) {
+                            Ok(TcpTryConnect::Connected(s)) => Ok(s),
+                            Ok(TcpTryConnect::InProgress(mut p)) => loop {
+                                match p.try_connect() {
+                                    Ok(TcpTryConnect::Connected(s)) => break Ok(s),
+                                    Ok(TcpTryConnect::InProgress(q)) if Instant::now() < retry_until => {
+                                        p = q;
+                                        std::thread::sleep(Duration::from_millis(1));
+                                    }
+                                    Ok(TcpTryConnect::InProgress(_)) => return "try-connect-never-ready".into(),
+                                    Err(e) => break Err(e),
+                                }
+                            },
+                            Err(e) => Err(e),
+                        },
+                    };
+                    let s = match s {
+                        Ok(s) => s,
+                        Err(e) => return format!("ctor-failed {}", show_err(&e)),
+                    };
+                    match l.accept() {
+                        Ok(peer) => (AnyS::T(s), AnyS::T(peer), None),
+                        Err(e) => return format!("peer-accept-failed {}", show_err(&e)),
+                    }
+                }
+                _ => return "bad-op".into(),
+            }
+        }
+        _ => return "bad-op".into(),
+    };
+    if let Some(p) = path {
+        let _ = std::fs::remove_file(p);
+    }
+    let fd = match &stream {
+        AnyS::U(s) => s.as_raw_fd(),
+        AnyS::T(s) => s.as_raw_fd(),
+    };
+    let fl = unsafe { sys::fcntl(fd, 3) };
+    let nonblock = (fl >= 0 && fl & 0o4000 != 0) as u8;
+    let mut buf = [0u8; 16];
+    let out = match stream {
+        AnyS::T(mut t) => polls_in(|| match t.read_with_timeout(&mut buf, Duration::from_millis(ms)) {
+            Ok(n) => format!("read {}", n),
+            Err(e) => show_err(&e),
+        }),
+        AnyS::U(u) => polls_in(|| {
+            let n = unsafe { sys::read(u.as_raw_fd(), buf.as_mut_ptr(), buf.len()) };
+            if n >= 0 {
+                format!("read {}", n)
+            } else {
+                let e = std::io::Error::last_os_error().raw_os_error().unwrap_or(0);
+                if e == 11 {
+                    "wouldblock".to_string()
+                } else {
+                    format!("os {}", e)
+                }
+            }
+        }),
+    };
+    format!("{} nonblock={}", out, nonblock)
+}
+
 fn try_idle(fam: &str) -> String {
     let (mut l, _c, path) = match listen(fam) {
         Some(x) => x,
@@ -1144,6 +1354,13 @@ fn main() {
                 }
                 _ => "bad-op".to_string(),
             },
+            ["cmsgraw", cl, img] => match (cl.parse::<usize>(), unhex(img)) {
+                (Ok(cl), Some(img)) if img.len() >= cl && img.len() % 8 == 0 && !img.is_empty() => {
+                    out.flush().unwrap();
+                    in_child(move || cmsg_raw(cl, &img))
+                }
+                _ => "bad-op".to_string(),
+            },
             ["kfill", len, n] => match (len.parse::<usize>(), n.parse::<usize>()) {
                 (Ok(len), Ok(n)) if n <= 253 => {
                     out.flush().unwrap();
@@ -1170,6 +1387,11 @@ fn main() {
             ["timedread", ms] => {
                 out.flush().unwrap();
                 ms.parse().map(|ms| in_child_for(60, move || timed_read(ms))).unwrap_or("bad-op".into())
+            }
+            ["timedfrom", fam, ctor, ms] => {
+                out.flush().unwrap();
+                let (fam, ctor) = (fam.to_string(), ctor.to_string());
+                ms.parse().map(|ms| in_child_for(8, move || timed_from(&fam, &ctor, ms))).unwrap_or("bad-op".into())
             }
             ["tryidle", fam] => {
                 out.flush().unwrap();
